@@ -91,7 +91,10 @@ def _border_signature(f) -> Dict[str, object]:
                 if isinstance(e, ast.Call) and call_name(e) == "len":
                     sig["endlen"] = norm(e.args[0])
         if isinstance(n, ast.Call) and call_name(n) == "zip" and len(n.args) == 2 and isinstance(n.args[1], ast.Subscript) \
-                and norm(n.args[1].slice) == "1:" and norm(n.args[1].value) == norm(n.args[0]):
+                and norm(n.args[1].slice) == "1:" and (norm(n.args[1].value) == norm(n.args[0]) or (
+                    isinstance(n.args[0], ast.Subscript) and norm(n.args[0].slice) == ":-1" and norm(n.args[0].value) == norm(n.args[1].value))):
+            sig["pairs"] = True
+        if isinstance(n, ast.Call) and call_name(n) in ("pairwise", "itertools.pairwise") and len(n.args) == 1:
             sig["pairs"] = True
     return sig
 
